@@ -227,6 +227,16 @@ func runC13(ctx *Ctx) {
 		}
 		spawn(func() { c13Migrate(ctx, i) })
 	}
+	// (c') older formats with many identities in the nonce table
+	for c := 0; c < ctx.N(2, 12); c++ {
+		i := idx
+		idx++
+		if !ctx.Want(i) {
+			continue
+		}
+		n := []int{150, 40, 260, 101, 99, 1000}[c%6]
+		spawn(func() { c13MigrateLarge(ctx, i, n) })
+	}
 	// (e) a crash right after every commit the database ever made
 	for c := 0; c < ctx.N(20, 400); c++ {
 		i := idx
@@ -619,4 +629,94 @@ func c13CommitPoints(ctx *Ctx, i int) {
 		// every operation made at most one commit: nothing in between to crash into
 		ctx.Emit(Case{I: i, Kind: "commit-point", Desc: map[string]interface{}{"mode": "commit-point", "operations": len(done), "operations_with_several_commits": multi}})
 	}
+}
+
+// c13MigrateLarge: a format-1 database of a pool with n identities (a nonce, a node record, a
+// peer set and a trial balance each) is opened by the current driver: every nonce of the old
+// table must be gone, and nothing else may change.
+func c13MigrateLarge(ctx *Ctx, i int, n int) {
+	st := newStore(drvBdg)
+	defer func() { os.RemoveAll(st.dir) }()
+	now := time.Now()
+	nonce := now.UnixNano() - 5e6
+	id := func(k int) store.NodeID { return store.NodeID(fmt.Sprintf("%0128x", 0xabc000+k)) }
+	for k := 0; k < n; k++ {
+		st.SetNode(store.Node{ID: id(k), IsHost: k%2 == 0, LastSeen: now})
+		st.AddNodeBalance(id(k), big.NewInt(int64(1000+k)))
+		st.CheckAndSaveNonce(string(id(k)), nonce)
+	}
+	for k := 0; k < n; k++ {
+		st.UpdateNodePeers(id(k), []string{string(id((k + 1) % n))}, 7)
+	}
+	dump := func(db *badger.DB) (map[string]string, int) {
+		m := map[string]string{}
+		nonces := 0
+		db.View(func(txn *badger.Txn) error {
+			it := txn.NewIterator(badger.DefaultIteratorOptions)
+			defer it.Close()
+			for it.Rewind(); it.Valid(); it.Next() {
+				k := string(it.Item().KeyCopy(nil))
+				if strings.HasPrefix(k, "vip:nonce:") {
+					nonces++
+					continue
+				}
+				if k == "vip:version" {
+					continue
+				}
+				v, _ := it.Item().ValueCopy(nil)
+				m[k] = string(v)
+			}
+			return nil
+		})
+		return m, nonces
+	}
+	db := st.Store.(interface{ VerifDB() *badger.DB }).VerifDB()
+	// format 1 kept nonces without expiry: rewrite them so, and stamp the version
+	db.Update(func(txn *badger.Txn) error {
+		var buf bytes.Buffer
+		one := 1
+		gob.NewEncoder(&buf).Encode(&one)
+		if err := txn.Set([]byte("vip:version"), buf.Bytes()); err != nil {
+			return err
+		}
+		for k := 0; k < n; k++ {
+			var b bytes.Buffer
+			gob.NewEncoder(&b).Encode(&nonce)
+			if err := txn.Set([]byte("vip:nonce:"+string(id(k))), b.Bytes()); err != nil {
+				return err
+			}
+		}
+		return nil
+	})
+	before, nb := dump(db)
+	st.Store.Close()
+	var mon []string
+	s, err := badgerstore.Open(badgerOpts(st.dir))
+	if err != nil {
+		mon = append(mon, "c13-reopen-after-kill-failed: opening the format-1 database failed: "+err.Error())
+		ctx.Emit(Case{I: i, Kind: "migrate-large", Desc: map[string]interface{}{"mode": "migrate-large", "identities": n}, Monitor: mon})
+		return
+	}
+	defer s.Close()
+	after, na := dump(s.VerifDB())
+	lost, changed := 0, 0
+	example := ""
+	for k, v := range before {
+		w, ok := after[k]
+		if !ok {
+			lost++
+			if example == "" {
+				example = k[:40]
+			}
+		} else if w != v {
+			changed++
+		}
+	}
+	if lost > 0 || changed > 0 || len(after) != len(before) {
+		mon = append(mon, fmt.Sprintf("c13-migration-touched-data: opening a format-1 database with %d identities removed %d and changed %d of its %d node, peer and balance records (for example %s...)", n, lost, changed, len(before), example))
+	}
+	if na != 0 {
+		mon = append(mon, fmt.Sprintf("c13-migration-kept-nonces: %d of the %d non-expiring nonces of the format-1 table are still there after the migration to format 2", na, nb))
+	}
+	ctx.Emit(Case{I: i, Kind: "migrate-large", Desc: map[string]interface{}{"mode": "migrate-large", "identities": n, "records": len(before), "nonces_before": nb, "nonces_after": na}, Monitor: mon})
 }
